@@ -82,7 +82,7 @@ class Recorder:
     def do_set(self, rep, norms, op):
         l = self.rng.choice(self.letters)
         M = self.rand_matrix()
-        rep[self.mode.name(l)] = self.mode.cast(M, len(self.events))
+        self.mode.assign(rep, l, self.mode.cast(M, len(self.events)))
         norms[l] = rr.mnorm(M)
         norms[rc.swapcase(l)] = rr.mnorm(rr.int_inverse(M))
         self.log(op, name=l, M=M.tolist())
@@ -103,7 +103,7 @@ class Recorder:
             self.log("eval", w=w, res=ints(form[1]()), form=form[0])
         elif op == "deval":
             w = self.rand_word(self.dnorm, 8, seen=self.dseen)
-            dm = Mode(mode.naming, False if self.der.parse_simple is False else None, mode.order, mode.dtype)
+            dm = mode      # copy / dual / conjugate / compose parse words as their source does
             form = rng.choice(rc.word_forms(self.der, dm, tuple(w)))
             self.log("deval", w=w, res=ints(form[1]()), form=form[0])
         elif op == "elements":
@@ -148,7 +148,7 @@ class Recorder:
 
 MODES = [Mode("single", None, "lower", "float"), Mode("single", None, "lower", "mixed"),
          Mode("multi", None, "lower", "int"), Mode("long", False, "lower", "float"),
-         Mode("digit", None, "lower", "float"), Mode("shapes", False, "lower", "mixed")]
+         Mode("digit", None, "lower", "float", via="method"), Mode("shapes", False, "lower", "mixed")]
 
 _ACC = re.compile(r'^"ACCEPT (\d+)"')
 _AT = re.compile(r'^"AT (\d+) (\d+)"')
